@@ -73,10 +73,27 @@ def gen(rng, tier) -> str:
     return "HIST\t" + "\t".join(steps)
 
 
+def live_view_histories() -> list[str]:
+    """deterministic histories in which the body of a call updates — in place — the long-lived mapping its provider hands out: the
+    argument was judged under the mapping the call started with, and so is the return value (a context that keeps a live view of the
+    provider's mapping would judge the two halves of one call under different sizes)"""
+    out = []
+    for kind in ("long", "mapobj"):
+        for pid_spec in ("p2", "self:p2"):
+            for old, new in ((4, 8), (3, 5), (0, 2)):
+                steps = ["A|T0|FloatTensor,0,n k", f"V|p2|{kind}|k:{old}", f"D|f1|{pid_spec}|x=T0:0|T0:0|set:p2=k:{new}",
+                         f"C|f1|x|T,0:float32,3.{old}|T,0:float32,3.{new}",     # the result has the NEW size: violates under the mapping of this call
+                         f"C|f1|x|T,0:float32,3.{new}|T,0:float32,3.{new}",     # the next call starts with the new mapping (the body sets it again): conforms
+                         f"S|p2|k:{old}", f"C|f1|x|T,0:float32,3.{old}|T,0:float32,3.{old}"]   # … and the result has the OLD size: conforms under the mapping of this call
+                out.append("HIST\t" + "\t".join(steps))
+    return out
+
+
 def cases(tier, rng, run):
     out = [Case(l, "corpus") for l in run.corpus_lines()]
     for _ in range(2500 if tier == "quick" else 30000):
         out.append(Case(gen(rng, tier), "prov"))
+    out += [Case(l, "live-view") for l in live_view_histories()]
     return out
 
 
